@@ -328,6 +328,10 @@ def main():
         ev['coverage']['distinct_nontrivial'] = sum(b.get('distinct_nontrivial', 0) for b in bounded)
         ev['coverage']['rule'] = '; '.join(b.get('rule', '') for b in bounded)
     json.dump(ev, open(os.path.join(OUT, 'evidence', f'{prop}.json'), 'w'), indent=1, default=repr)
+    if os.environ.get('VERIF_SLOW'):
+        for o in sorted(obls, key=lambda o: -o.time)[:15]:
+            if o.time >= float(os.environ['VERIF_SLOW']):
+                print(f'SLOW {o.time:.1f}s {o.backend} {o.fullname}')
     for l in sorted(set(known_lines)):
         print(l)
     for o in undecided:
